@@ -158,14 +158,15 @@ func main() {
 			if th {
 				return 25 * time.Minute
 			}
-			return 110 * time.Second
+			return 90 * time.Second
 		},
-		Rule: "BFS over update histories on the real FIB (tree, hash table m=1..3), RIB over FIB, content store, and Interest/Data/time histories on a real forwarding thread (three alphabets: pit = two faces, exact/CanBePrefix, retransmissions, NextHopFaceId, bursts, Data by name and token; pitm = Data satisfying several entries at once, arriving on the upstream or on a downstream face, lifetimes 1 s and explicit 0; pitc = MustBeFresh/stale Data/admit-only so that cache entries and pending Interests share name-tree nodes, three Data names against content-store capacity 0, 1, 2; pitb = bursts of 101 / 350 Interests with distinct names and a 200 ms lifetime in one step; pito = one long-lived (4 s) Interest next to short-lived ones (1 s, 100 ms, explicit 0) and Data satisfying either); the periodic PIT reaper runs after every 100 ms clock step or - configurations 'own' - only when the table's OWN timer (PitCsTree.UpdateTimer(), armed by NewPitCS/Update through time.AfterFunc on the virtual clock) has fired, as in Thread.Run(); after every transition a white-box dump of the private structures is compared with the minimal structure its live entries require; PIT states are additionally closed under quiescence (clock advanced beyond every lifetime with the periodic reaper running)",
+		Rule: "BFS over update histories on the real FIB (tree, hash table m=1..3), RIB over FIB, content store, and Interest/Data/time histories on a real forwarding thread (three alphabets: pit = two faces, exact/CanBePrefix, retransmissions, NextHopFaceId, bursts, Data by name and token; pitm = Data satisfying several entries at once, arriving on the upstream or on a downstream face, lifetimes 1 s and explicit 0; pitc = MustBeFresh/stale Data/admit-only so that cache entries and pending Interests share name-tree nodes, three Data names against content-store capacity 0, 1, 2; pitb = bursts of 101 / 350 Interests with distinct names and a 200 ms lifetime in one step; pito = one long-lived (4 s) Interest next to short-lived ones (1 s, 100 ms, explicit 0) and Data satisfying either; pith = cache hits: every Interest shape (exact, CanBePrefix, MustBeFresh, the zero-component name / with CanBePrefix, two faces, lifetimes 1 s / 4 s) against solicited and unsolicited, fresh and stale cached Data, under best-route, multicast and a per-prefix strategy choice); the periodic PIT reaper runs after every 100 ms clock step or - configurations 'own' - only when the table's OWN timer (PitCsTree.UpdateTimer(), armed by NewPitCS/Update through time.AfterFunc on the virtual clock) has fired, as in Thread.Run(); after every transition a white-box dump of the private structures is compared with the minimal structure its live entries require; PIT states are additionally closed under quiescence (clock advanced beyond every lifetime with the periodic reaper running)",
 		Assumptions: []string{
 			"equal canonical state (white-box dumps with clock-relative times) implies equal futures",
 			"finite universes of 4-5 nested/sibling prefixes, 2 faces",
 			"C08.when is evaluated after every periodic run AND just before it (an entry present then was present during the whole preceding clock step); in the 'own' configurations the thread serves the reaper signal at the end of the 100 ms clock step in which the table's timer fell due (all lifetimes and steps are multiples of 100 ms, so on the unchanged tree the signal is served the instant it falls due) and never runs the reaper without a signal; the dead-nonce-list reaper keeps its fixed 100 ms ticker",
 			"'promptly once satisfied' is judged against a reference of satisfaction kept by the harness (match rule of the property text: echoed token of this forwarder, else equal name / prefix with CanBePrefix; entries holding an unexpired Interest when the Data arrives, whatever face it arrives on), not against the implementation's satisfied flag; 'promptly' and 'shortly after' = two reaper intervals",
+			"an Interest is 'answered from the cache' when a Data copy goes back to its face within the arrival call; an entry that held no records before that Interest (created for it, or satisfied and waiting for removal) must be gone within two reaper intervals of the answer whatever records the forwarder keeps in it; if the entry also held records of other Interests their lifetimes govern",
 		},
 	})
 }
